@@ -267,6 +267,26 @@ func c16Prop(c *Ctx) {
 			c.Res.fail(key, what, in)
 		}
 	}
+	// two required imports that ask for one name (an alias in the source, the same alias through the
+	// Alias map; two Alias-map entries; an alias equal to another package's resolved name): who keeps
+	// the name must not follow map iteration order
+	for _, cfg := range []icConfig{
+		{Local: "example.com/local", Blocks: [][]icSpec{{{Path: "root/a", Alias: "x"}}}, Paren: []bool{false}, Used: []string{"root/a", "root/b"},
+			Alias: map[string]string{"root/b": "x"}, Resolver: map[string]string{"root/a": "a", "root/b": "b"}},
+		{Local: "example.com/local", Used: []string{"root/a", "root/b", "root/c"},
+			Alias: map[string]string{"root/a": "x", "root/b": "x", "root/c": "x"}, Resolver: map[string]string{"root/a": "a", "root/b": "b", "root/c": "c"}},
+		{Local: "example.com/local", Blocks: [][]icSpec{{{Path: "root/q", Alias: "b"}, {Path: "root/r", Alias: "b1"}}}, Paren: []bool{true}, Used: []string{"root/q", "root/b", "root/r"},
+			Alias: map[string]string{}, Resolver: map[string]string{"root/q": "q", "root/b": "b", "root/r": "r"}},
+	} {
+		in := c16Input{Mode: "repeat", Config: cfg, Rounds: 80}
+		c.Res.Evaluations++
+		b, _ := json.Marshal(cfg)
+		c.Res.seen(string(b))
+		c.Res.hist("c16", "repeat (colliding aliases)")
+		if key, what := c16Check(in); key != "" {
+			c.Res.fail(key, what, in)
+		}
+	}
 	for i := 0; i < c.N(120); i++ {
 		cfg := genImportConfig(c.Rng, i%3 == 0, false)
 		if i%3 == 0 {
